@@ -1813,9 +1813,11 @@ func (c *Ctx) ncbiText(t ncbiTable) []byte {
 		b.WriteString(c.ws(false))
 		if i < len(t.rows)-1 || c.rng.Intn(3) != 0 {
 			b.WriteString(eol())
+			if i == len(t.rows)-1 {
+				junk()
+			}
 		}
 	}
-	junk()
 	return []byte(b.String())
 }
 
